@@ -1,1 +1,127 @@
-(* placeholder; being written *)
+(** Trace checker for the boosted-yields correspondence run: replays the operations the harness
+    executed on the real dex/farm (+ energy-factory-mock) on [Model.Boosted] and compares every
+    observation.  Returns [] or [index; field; model value; implementation value] for the first
+    difference.
+
+    Field codes: 1 ok/err, 2 total boosted payout of the operation, 4 current week,
+    5 lastGlobalUpdateWeek, 6 undistributed, 7 last collect week, 8 percentage,
+    9 config presence, 10 config last_update_week, 20+5*slot+k factor k of slot,
+    1000+w accumulated(w), 2000+w remaining(w), 3000+w farm supply(w), 4000+w total energy(w),
+    5000+w total rewards(w) (amount, -1 = empty mapper), 6000+10*u+k claim progress of user u
+    (k = 0 presence, 1 amount, 2 epoch, 3 tokens, 4 week). *)
+From MX Require Import Base.Prelude Gen.Params Model.Weekly Model.Boosted.
+
+Record bobs := mkBObs {
+  bo_ok : bool;
+  bo_b : Z;                              (* boosted payout: decrease of the completed weeks' pools *)
+  bo_week : Z;                           (* getCurrentWeek *)
+  bo_last : Z;                           (* getLastGlobalUpdateWeek *)
+  bo_und : Z;                            (* getUndistributedBoostedRewards *)
+  bo_lastcol : Z;                        (* lastUndistributedBoostedRewardsCollectWeek *)
+  bo_pct : Z;                            (* getBoostedYieldsRewardsPercentage *)
+  bo_cfg : list Z;                       (* [] = empty mapper; else last_update_week :: 5 factors x 5 fields *)
+  bo_acc : list (Z * Z);                 (* (week, getAccumulatedRewardsForWeek) over the observed window *)
+  bo_rem : list (Z * Z);                 (* (week, getRemainingBoostedRewardsToDistribute) *)
+  bo_sup : list (Z * Z);                 (* (week, getFarmSupplyForWeek) *)
+  bo_energy : list (Z * Z);              (* (week, getTotalEnergyForWeek) *)
+  bo_rewards : list (Z * Z);             (* (week, amount of getTotalRewardsForWeek or -1 when empty) *)
+  bo_prog : list (Z * list Z)            (* (user, [amount; epoch; tokens; week]) or (user, []) *)
+}.
+
+Fixpoint first_diff (get : Z -> Z) (l : list (Z * Z)) : option (Z * Z * Z) :=
+  match l with
+  | [] => None
+  | (k, v) :: t => if get k =? v then first_diff get t else Some (k, get k, v)
+  end.
+
+Fixpoint first_list_diff (k : Z) (a b : list Z) : option (Z * Z * Z) :=
+  match a, b with
+  | [], [] => None
+  | x :: a', y :: b' => if x =? y then first_list_diff (k + 1) a' b' else Some (k, x, y)
+  | [], y :: _ => Some (0, 0, 1)
+  | x :: _, [] => Some (0, 1, 0)
+  end.
+
+Definition fac_fields (f : factors) : list Z := [fa_max f; fa_ce f; fa_cf f; fa_mine f; fa_minf f].
+
+Definition cfg_fields (s : bst) : list Z :=
+  match bh_cfg (b_h s) with
+  | None => []
+  | Some c => c_last c :: concat (map fac_fields (c_slots c))
+  end.
+
+Definition rewards_amount (s : bst) (w : Z) : Z :=
+  match view_total_rewards s w with
+  | [] => -1
+  | (_, a) :: _ => a
+  end.
+
+Definition prog_fields (s : bst) (u : Z) : list Z :=
+  match view_progress s u with
+  | Some p => [en_amt (pr_en p); en_epoch (pr_en p); en_tok (pr_en p); pr_week p]
+  | None => []
+  end.
+
+Fixpoint first_prog_diff (s : bst) (l : list (Z * list Z)) : option (Z * Z * Z) :=
+  match l with
+  | [] => None
+  | (u, v) :: t =>
+      match first_list_diff 1 (prog_fields s u) v with
+      | Some (k, m, i) => Some (10 * u + k, m, i)
+      | None => first_prog_diff s t
+      end
+  end.
+
+Definition cmp_state (i : Z) (s : bst) (o : bobs) : list Z :=
+  match current_week s with
+  | Err _ => [i; 4; -1; bo_week o]
+  | Ok cw =>
+  if negb (cw =? bo_week o) then [i; 4; cw; bo_week o]
+  else if negb (view_last_global s =? bo_last o) then [i; 5; view_last_global s; bo_last o]
+  else if negb (view_und s =? bo_und o) then [i; 6; view_und s; bo_und o]
+  else if negb (view_lastcol s =? bo_lastcol o) then [i; 7; view_lastcol s; bo_lastcol o]
+  else if negb (view_pct s =? bo_pct o) then [i; 8; view_pct s; bo_pct o]
+  else match first_list_diff 10 (cfg_fields s) (bo_cfg o) with
+  | Some (k, m, v) => [i; (if k =? 0 then 9 else k); m; v]
+  | None =>
+  match first_diff (view_acc s) (bo_acc o) with
+  | Some (k, m, v) => [i; 1000 + k; m; v]
+  | None =>
+  match first_diff (view_rem s) (bo_rem o) with
+  | Some (k, m, v) => [i; 2000 + k; m; v]
+  | None =>
+  match first_diff (view_sup s) (bo_sup o) with
+  | Some (k, m, v) => [i; 3000 + k; m; v]
+  | None =>
+  match first_diff (view_total_energy s) (bo_energy o) with
+  | Some (k, m, v) => [i; 4000 + k; m; v]
+  | None =>
+  match first_diff (rewards_amount s) (bo_rewards o) with
+  | Some (k, m, v) => [i; 5000 + k; m; v]
+  | None =>
+  match first_prog_diff s (bo_prog o) with
+  | Some (k, m, v) => [i; 6000 + k; m; v]
+  | None => []
+  end end end end end end end
+  end.
+
+Fixpoint check_trace (s : bst) (i : Z) (tr : list (bop * bobs)) : list Z :=
+  match tr with
+  | [] => []
+  | (op, o) :: t =>
+      match step s op with
+      | Ok (s', out) =>
+          if negb (bo_ok o) then [i; 1; 1; 0]
+          else if negb (o_b out =? bo_b o) then [i; 2; o_b out; bo_b o]
+          else match cmp_state i s' o with
+               | [] => check_trace s' (i + 1) t
+               | d => d
+               end
+      | Err _ =>
+          if bo_ok o then [i; 1; 0; 1]
+          else match cmp_state i s o with
+               | [] => check_trace s (i + 1) t
+               | d => d
+               end
+      end
+  end.
